@@ -316,10 +316,16 @@ def run(ctx):
     if st is not None:
         nodes = list(branch_body_nodes(st))
         has_bool = any(isinstance(n, ast.Call) and call_name(n) == "bool" for n in nodes)
-        loops = [n for n in nodes if isinstance(n, ast.For) and norm(n.iter) == f"{p_node}.values"]
-        combos = [n for n in nodes if isinstance(n, ast.Call) and isinstance(n.func, ast.Subscript) and dotted(n.func.value) == "AST_OPERATORS"]
-        early = [n for l in loops for n in ast.walk(l) if isinstance(n, (ast.Break,))]
-        ctx.check(has_bool and bool(loops) and bool(combos) and not early, "R7.4", "_eval:BoolOp:fold",
+        loops = [n for n in nodes if isinstance(n, (ast.For, ast.comprehension)) and norm(n.iter) == f"{p_node}.values"]
+        # the operator of the table is applied either directly / through a local, or handed to functools.reduce with the values
+        table_reads = [n for n in nodes if isinstance(n, ast.Subscript) and dotted(n.value) == "AST_OPERATORS" and norm(n.slice) == f"type({p_node}.op)"]
+        combos = [n for n in nodes if isinstance(n, ast.Call) and ((isinstance(n.func, ast.Subscript) and dotted(n.func.value) == "AST_OPERATORS")
+                                                                   or call_name(n) in ("functools.reduce", "reduce")
+                                                                   or (isinstance(n.func, ast.Name) and any(
+                                                                       isinstance(a, ast.Assign) and norm(a.targets[0]) == n.func.id and a.value in table_reads for a in nodes)))]
+        early = [n for l in loops if isinstance(l, ast.For) for n in ast.walk(l) if isinstance(n, (ast.Break,))]
+        sliced = [n for n in nodes if isinstance(n, ast.Subscript) and norm(n.value) == f"{p_node}.values"]
+        ctx.check(has_bool and bool(loops) and bool(combos) and bool(table_reads) and not early and not sliced, "R7.4", "_eval:BoolOp:fold",
                   "BoolOp operands are not all converted with bool() and combined", st, "all values -> bool() -> folded with the table operator")
     st = handled.get("Constant")
     if st is not None:
@@ -393,9 +399,11 @@ def run(ctx):
     for n in ast.walk(cs_init):
         if isinstance(n, ast.Subscript) and norm(n.value) == "self.ns" and isinstance(n.slice, ast.Constant) and isinstance(n.ctx, ast.Store):
             compiled_names.add(n.slice.value)
-    for d in ast.walk(cm):
-        if isinstance(d, ast.Dict):
-            compiled_names |= {k.value for k in d.keys if isinstance(k, ast.Constant) and isinstance(k.value, str)}
+    from ..core import dict_bindings
+
+    if evs and len(evs[0].args) > 1:
+        _bases, _binds, _copied = dict_bindings(cm, evs[0].args[1])
+        compiled_names |= {k for k in _binds if isinstance(k, str)}
     for must in ("r", "Type") + tuple(sorted(helper_names)):
         ctx.check(must in interp_names and must in compiled_names, "R7.6", f"namespace:{must}",
                   f"`{must}` is not bound in both engines (interpreted={must in interp_names}, compiled={must in compiled_names})", mt,
